@@ -141,7 +141,7 @@ def _bv_decide(ob, em, assumptions, diffs, built, drv, native_ok, timeout, key):
 def check_select(built, tag, ty, n, what, timeout):
     """set_cond / select / cswap / condneg with ctl in {0, all-ones}"""
     drv = "drv_%s_%s" % (tag, what)
-    name = "default:%s.%s" % (tag, what)
+    name = CFG[0] + ":%s.%s" % (tag, what)
     ob = Obligation(name, "L", ["%s::%s" % (ty, {"setcond": "set_cond", "condneg": "set_condneg"}.get(what, what))],
                     "all operand bit patterns; ctl in {0x00000000, 0xFFFFFFFF}",
                     "ctl=0 leaves operands bit-identical; ctl=all-ones performs the full copy/swap/negation")
@@ -214,7 +214,7 @@ def check_zero(built, f, timeout):
     vals = boundary_values(f, r)
     # iszero
     drv = "drv_%s_iszero" % f.tag
-    ob = Obligation("default:%s.iszero" % f.tag, "L", [f.rust + "::iszero"],
+    ob = Obligation(CFG[0] + ":%s.iszero" % f.tag, "L", [f.rust + "::iszero"],
                     "all %d-bit limb patterns%s" % (64 * n, "" if f.kind == "raw" else " below the modulus"),
                     "returns 0xFFFFFFFF iff the value is 0 mod q (every representation), else exactly 0")
     obs.append(ob)
@@ -243,7 +243,7 @@ def check_zero(built, f, timeout):
     except ExecError as e:
         ob.unknown("executor: %s" % e)
     # equals == iszero(a - b) on the real code (value of a-b: C01)
-    ob2 = Obligation("default:%s.equals" % f.tag, "L", [f.rust + "::equals"],
+    ob2 = Obligation(CFG[0] + ":%s.equals" % f.tag, "L", [f.rust + "::equals"],
                      ob.bounds, "equals(a,b) is bit-identical to iszero(a-b) (subtraction value: C01; zero test: above)")
     obs.append(ob2)
     try:
@@ -320,12 +320,12 @@ def check_point_lookup(built, tag, ty, n, timeout):
     try:
         ex, ins, outs = sym_run(built, drv)
     except ExecError as e:
-        return [Obligation("default:%s.lookup" % tag, "L").unknown("executor: %s" % e)]
+        return [Obligation(CFG[0] + ":%s.lookup" % tag, "L").unknown("executor: %s" % e)]
     r = rng("plk", tag)
     W = 16 * n
     win_terms = ins["win"]
     for kk in range(-16, 17):
-        ob = Obligation("default:%s.lookup[k=%d]" % (tag, kk), "L", ["%s::lookup" % ty],
+        ob = Obligation(CFG[0] + ":%s.lookup[k=%d]" % (tag, kk), "L", ["%s::lookup" % ty],
                         "arbitrary window (all bit patterns); index fixed by assumption",
                         "returns win[k-1], -win[-k-1] or the neutral")
         obs.append(ob)
@@ -352,7 +352,11 @@ def check_point_lookup(built, tag, ty, n, timeout):
     return obs
 
 
-def run(tier, only=None):
+CFG = ["default"]
+
+
+def run_config(tier, cfg="default", features=None, rustflags="", only=None, fields_override=None):
+    CFG[0] = cfg
     t0 = time.time()
     fields = [f for f in F.FIELDS if tier == "thorough" or f.tag in QUICK_FIELDS]
     points = [p for p in POINTS if tier == "thorough" or p[0] in QUICK_POINTS]
@@ -383,7 +387,7 @@ def run(tier, only=None):
         for tag, ty, n, host in lk_points:
             ds += point_lookup_drivers(tag, ty, n, host)
             items.append(("plk", tag, ty, n))
-    built = build(ds, tag="C20-default")
+    built = build(ds, tag="C20-" + cfg, features=features, rustflags=rustflags)
     timeout = 120 if tier == "quick" else 900
 
     def work(it):
@@ -400,12 +404,19 @@ def run(tier, only=None):
         if st == "ok":
             obs.extend(val)
         else:
-            o = Obligation("default:%s" % "/".join(str(x) for x in it[:2] if isinstance(x, (str, int))), "L")
+            o = Obligation(CFG[0] + ":%s" % "/".join(str(x) for x in it[:2] if isinstance(x, (str, int))), "L")
             o.unknown("%s: %s" % (st, str(val)[-400:]))
             obs.append(o)
             if "MachineryError" in str(val):
                 merr = str(val)[-600:]
     built.close()
+    return obs, merr, locals()
+
+
+def run(tier, only=None):
+    t0 = time.time()
+    obs, merr, L = run_config(tier, only=only)
+    reds = L.get('reds'); skipped = L.get('skipped', [])
     return finish("C20", tier, obs, t0,
                   functions_encoded=sorted(set(fn for o in obs for fn in o.functions)),
                   bounds={"control words": "exactly 0x00000000 and 0xFFFFFFFF (documented domain)",
